@@ -163,14 +163,21 @@ fn vtx_header_case(hdr: &[u8; 16], tail: &[u8], len: usize) -> bool {
     r.is_ok()
 }
 
-#[kani::proof]
-#[kani::unwind(260)]
-#[kani::stub(std::string::String::from_utf8_lossy, lossy_stub)]
-fn vtx_load_header() {
+fn vtx_headers(decode: bool) {
     let hdr: [u8; 16] = kani::any();
-    // either the declared decompressed size is 0 (nothing to decode) or the header is rejected
-    let size = (hdr[12] as u32) | ((hdr[13] as u32) << 8) | ((hdr[14] as u32) << 16) | ((hdr[15] as u32) << 24);
-    kani::assume(size == 0 || size > 64 * 1024 * 1024 || size % 14 != 0);
+    // the LH5 decoder (delharc) is out of reach: `decode` selects whether the declared size is 0
+    // (the decoder is entered with nothing to decode; concrete size field) or one the loader must
+    // reject before decoding (symbolic)
+    let mut hdr = hdr;
+    if decode {
+        hdr[12] = 0;
+        hdr[13] = 0;
+        hdr[14] = 0;
+        hdr[15] = 0;
+    } else {
+        let size = (hdr[12] as u32) | ((hdr[13] as u32) << 8) | ((hdr[14] as u32) << 16) | ((hdr[15] as u32) << 24);
+        kani::assume(size > 64 * 1024 * 1024 || size % 14 != 0);
+    }
     let mut any_ok = false;
     // truncated headers
     let lens: [usize; 5] = [0, 1, 2, 3, 15];
@@ -187,6 +194,24 @@ fn vtx_load_header() {
     any_ok |= vtx_header_case(&hdr, b"abcdefgh", 24);
     any_ok |= vtx_header_case(&hdr, b"\0\0\0\0\0", 21);
     any_ok |= vtx_header_case(&hdr, b"\0\0\0\0", 20);
-    kani::cover!(any_ok);
+    if decode {
+        kani::cover!(any_ok);
+    } else {
+        kani::assert(!any_ok, "C15: a declared frame size that is too big or not a multiple of 14 is rejected");
+    }
     kani::cover!(!any_ok);
+}
+
+#[kani::proof]
+#[kani::unwind(260)]
+#[kani::stub(std::string::String::from_utf8_lossy, lossy_stub)]
+fn vtx_load_header() {
+    vtx_headers(false);
+}
+
+#[kani::proof]
+#[kani::unwind(260)]
+#[kani::stub(std::string::String::from_utf8_lossy, lossy_stub)]
+fn vtx_load_empty_track() {
+    vtx_headers(true);
 }
